@@ -298,7 +298,8 @@ ReqsC13x == << MkReq("https", "ab.ba", "/ab-x", "script", "x.com"), MkReq("https
 \* universe rand: K random lists of 3..9 rules drawn (TLC Randomization) from a product space of patterns x anchors
 \* x every option, restricted to what the parser accepts and the properties cover.  Compositions no pool has.
 RandBodies == {"/ab", "ab", "/ab*ba", "*", "/bab", "-x", "/ab-", "/ab_", "ab.ba^"}
-RandSpace ==
+\* (TLC evaluates constant definitions at start-up: the space is only built for the universe that uses it)
+RandSpace == IF U # "rand" THEN {} ELSE
   { r \in { [R0 EXCEPT !.body = B(b), !.left = l, !.exc = e, !.pos = p, !.neg = n, !.party = pa, !.dom = d[1], !.ndom = d[2],
                       !.important = im, !.tag = tg, !.mkind = m[1], !.mval = m[2]] :
               b \in RandBodies, l \in {"none", "dpipe"}, e \in BOOLEAN,
